@@ -264,7 +264,13 @@ Inductive edit :=
 | ENone
 | ERev (at_ : list nat)               (* node.children = reversed(node.children) *)
 | EAdd (at_ : list nat) (i : nat)     (* a fresh leaf inserted as i-th child *)
-| EDel (at_ : list nat) (i : nat).    (* the i-th child (a leaf in generated cases) removed *)
+| EDel (at_ : list nat) (i : nat)     (* the i-th child (with everything below it) removed *)
+| EMove (from to : list nat) (i : nat)
+    (* the subtree at `from` becomes the i-th child of the node that has path `to` in the tree
+       WITHOUT that subtree (node.parent = target / target.children = [...]): up, down, sideways *)
+| ECut (at_ : list nat)               (* node.parent = None; from now on the detached piece is the tree *)
+| EReroot (at_ : list nat) (i : nat). (* the subtree at `at_` is detached and the old root (what is left
+                                         of the tree) becomes its i-th child *)
 
 Fixpoint edit_at (f : list dtree -> list dtree) (path : list nat) (d : dtree) : dtree :=
   match d with
@@ -280,19 +286,49 @@ Fixpoint edit_at (f : list dtree -> list dtree) (path : list nat) (d : dtree) : 
       end
   end.
 
+Fixpoint dsub (d : dtree) (path : list nat) : option dtree :=
+  match path with
+  | [] => Some d
+  | i :: path' => match nth_error (dkids d) i with
+                  | Some k => dsub k path'
+                  | None => None
+                  end
+  end.
+
+Definition del_ith (i : nat) (ks : list dtree) : list dtree := firstn i ks ++ skipn (S i) ks.
+Definition ins_ith (i : nat) (x : dtree) (ks : list dtree) : list dtree := firstn i ks ++ x :: skipn i ks.
+
+(* the tree without the node at `path` (path <> []) *)
+Definition ddel (d : dtree) (path : list nat) : dtree :=
+  edit_at (del_ith (last path 0%nat)) (removelast path) d.
+
 Definition apply_edit (e : edit) (d : dtree) : dtree :=
   match e with
   | ENone => d
   | ERev path => edit_at (@rev dtree) path d
-  | EAdd path i => edit_at (fun ks => firstn i ks ++ dzero :: skipn i ks) path d
-  | EDel path i => edit_at (fun ks => firstn i ks ++ skipn (S i) ks) path d
+  | EAdd path i => edit_at (ins_ith i dzero) path d
+  | EDel path i => edit_at (del_ith i) path d
+  | EMove from to i =>
+      match from, dsub d from with
+      | _ :: _, Some sub => edit_at (ins_ith i sub) to (ddel d from)
+      | _, _ => d
+      end
+  | ECut path => match dsub d path with Some sub => sub | None => d end
+  | EReroot path i =>
+      match path, dsub d path with
+      | _ :: _, Some (D x m sh ks) => D x m sh (ins_ith i (ddel d path) ks)
+      | _, _ => d
+      end
   end.
 
-(* a sequence of (edit, parameters): edit, then lay out; returns the last state *)
-Fixpoint run_steps (st : dtree * ctree) (steps : list (edit * params)) : dtree * ctree :=
+Definition apply_edits (es : list edit) (d : dtree) : dtree :=
+  fold_left (fun acc e => apply_edit e acc) es d.
+
+(* a sequence of (edits, parameters): edit, then lay out; returns the last state *)
+Fixpoint run_steps (st : dtree * ctree) (steps : list (list edit * params)) : dtree * ctree :=
   match steps with
   | [] => st
-  | (e, p) :: r => run_steps (layout p (apply_edit e (fst st))) r
+  | (es, p) :: r => run_steps (layout p (apply_edits es (fst st))) r
   end.
 
 (* ---------------------------------------------------------------------------------------------
